@@ -440,11 +440,19 @@ package pubsub
 //@   invariant handlers: self.inboundStreams != nil && (forall q string :: q in self.inboundStreams ==> self.inboundStreams[q].s != nil)
 
 //@ func (*PubSub).handleNewStream
-//@   property C12 C14
+//@   property C12 C14 C13
 //@   cancellable
 //@   safe
 //@   requires wf: p != nil && s != nil && p.inboundStreams != nil && p.rpcLogger != nil
 //@   noframe
+//@   ensures undecodable-frame-resets-the-stream: calls((*pb.RPC).Unmarshal) > old(calls((*pb.RPC).Unmarshal)) && lastret((*pb.RPC).Unmarshal) != nil ==>
+//@        calls(Stream.Reset) > old(calls(Stream.Reset))
+//@   ensures unreadable-frame-ends-the-stream: calls(ReadCloser.ReadMsg) > old(calls(ReadCloser.ReadMsg)) && lastret(ReadCloser.ReadMsg, 1) != nil ==>
+//@        calls(Stream.Reset) > old(calls(Stream.Reset)) || calls(Stream.Close) > old(calls(Stream.Close))
+//@   loop 1 invariant open-was-reported: sentNewStream && sent(p.incoming) > old(sent(p.incoming))
+//@   at call handleNewStream$1 assert open-report-remembered-for-the-cleanup: sentNewStream == (sent(p.incoming) > old(sent(p.incoming)))
+//@   loop 1 invariant frames-so-far-were-good: (calls((*pb.RPC).Unmarshal) > old(calls((*pb.RPC).Unmarshal)) ==> lastret((*pb.RPC).Unmarshal) == nil) &&
+//@        (calls(ReadCloser.ReadMsg) > old(calls(ReadCloser.ReadMsg)) ==> lastret(ReadCloser.ReadMsg, 1) == nil)
 //@   loop 1 step forwarded-only-if-decoded: sent(p.incoming) - iter(sent(p.incoming)) <= 1 &&
 //@        (sent(p.incoming) > iter(sent(p.incoming)) ==> calls((*pb.RPC).Unmarshal) == iter(calls((*pb.RPC).Unmarshal)) + 1 && lastret((*pb.RPC).Unmarshal) == nil &&
 //@            lastsent(p.incoming).kind == incomingKindRPC && lastsent(p.incoming).rpc != nil && lastsent(p.incoming).rpc.from == peer)
